@@ -990,6 +990,8 @@ enum Adv {
 
 /// Lets tracee `t` run: completes the parked call (if any), then continues up
 /// to the entry of its next decision point (sched mode) or to its end.
+static ALLPOINTS: std::sync::atomic::AtomicBool = std::sync::atomic::AtomicBool::new(false);
+
 fn advance(t: &mut Tracee, ctx: &mut RunCtx, sched: bool, stop_after_ret: bool) -> Adv {
     let pid = t.pid;
     let mut pending: Option<Call> = t.parked.take();
@@ -1153,7 +1155,8 @@ fn advance(t: &mut Tracee, ctx: &mut RunCtx, sched: bool, stop_after_ret: bool) 
                 }
             }
         }
-        if sched && is_decision_point(&call, &t.phase, &t.own_temps) && !t.world {
+        let allp = ALLPOINTS.load(std::sync::atomic::Ordering::Relaxed) && call.name != "rec" && (t.phase == "lib" || t.phase == "cb");
+        if sched && (allp || is_decision_point(&call, &t.phase, &t.own_temps)) && !t.world {
             t.parked = Some(call);
             return Adv::Parked;
         }
@@ -1457,6 +1460,8 @@ fn run_stage(stage: &Value, ctx: &mut RunCtx, actor: &str, job: &Value, strategy
     }
     let parts = stage["parts"].as_array().cloned().unwrap_or_default();
     let sched = stage["mode"].as_str().unwrap_or("seq") == "sched";
+    // "allpoints": every library call is a scheduling step (a peer can be frozen between ANY two of its calls)
+    ALLPOINTS.store(stage["allpoints"].as_bool().unwrap_or(false), std::sync::atomic::Ordering::Relaxed);
     let mut tracees: Vec<Tracee> = Vec::new();
     for (i, p) in parts.iter().enumerate() {
         let mut spec = subst(p, &top);
